@@ -26,6 +26,7 @@ Observation per case:
    "rows":   [row ...]}     abstract descriptions + outcomes of the twin kernels exercised by the ops
                             (consumed by coq/Tie/C10.v; see ``Rows``)
 """
+import signal
 import types
 
 import _boot
@@ -41,6 +42,17 @@ from zope.interface.adapter import AdapterRegistry, VerifyingAdapterRegistry
 
 EXCS = {"AttributeError": AttributeError, "ValueError": ValueError, "KeyError": KeyError,
         "TypeError": TypeError, "RuntimeError": RuntimeError}
+
+
+class OpTimeout(BaseException):
+    pass
+
+
+def _on_alarm(signum, frame):
+    raise OpTimeout()
+
+
+signal.signal(signal.SIGALRM, _on_alarm)
 
 
 class Val:
@@ -379,12 +391,17 @@ class Interp:
     def run(self, ops):
         out = []
         for n, op in enumerate(ops):
+            signal.alarm(10)
             try:
                 t = self.do(op, n)
             except RecursionError:
                 t = "EXC:RecursionError"
+            except OpTimeout:
+                t = "TIMEOUT"
             except Exception as e:
                 t = tok_exc(e)
+            finally:
+                signal.alarm(0)
             out.append(t)
         return out
 
